@@ -5,6 +5,7 @@ import (
 	"go/constant"
 	"go/token"
 	"go/types"
+	"os"
 	"sort"
 	"strings"
 
@@ -934,4 +935,217 @@ func fieldReadOf(v, e ssa.Value, field string) bool {
 		}
 	}
 	return false
+}
+
+// observerCallbacksBound (C12/C16/C03): what an observer reports reaches the stream: every function handed to the observer
+// constructor — the listener and the end listener — is a method value of the stream (or a closure that does nothing but
+// forward its argument to one), not a closure with a mind of its own: a once-only end listener swallows the second end
+// of a re-opened vBucket (the observer is reused across the re-open), a filtering listener drops events.
+func observerCallbacksBound(c *Ctx, id string) {
+	w := c.W
+	oi := observerInfo(c, id)
+	n := 0
+	for _, fn := range w.ModFuncs {
+		if fn.Parent() != nil {
+			continue
+		}
+		for _, al := range allocsOf(fn, oi.typ) {
+			tab, _ := allocTable(al)
+			for _, fname0 := range sortedKeys(tab) {
+				v := tab[fname0]
+				if _, isSig := v.Type().Underlying().(*types.Signature); !isSig {
+					continue
+				}
+				for _, ta := range w.traceToCallers(fn, v, 0) {
+					n++
+					arg, cs := ta.Val, ta.Site
+					c.see(cs.Fn)
+					construct := "observer-callback:" + fname0 + "@" + fname(cs.Fn)
+					if arg == nil {
+						c.Undecided(id, construct, cs.Call.Pos(), "cannot resolve what is handed in for the observer's %s", fname0)
+						continue
+					}
+					m := w.boundMethodOf(arg)
+					if m == nil {
+						cl := closureOf(arg)
+						if cl == nil {
+							cl = closureOf(resolveCell(arg)) // (kept in a local the Range callback captured)
+						}
+						m = w.loggedForwarder(cl) // a closure that logs and forwards
+					}
+					if m == nil {
+						c.Fail(id, construct, cs.Call.Pos(), "the observer's %s is %s — not a method of the stream handed over as it is: what it drops, delays or remembers is invisible to the rules that evaluate the stream's own listener", fname0, w.Origin(arg))
+						continue
+					}
+					c.OK(id, construct, cs.Call.Pos(), "%s ← %s", fname0, fname(m))
+				}
+			}
+		}
+	}
+	c.Floor(id, 2)
+	c.need(n >= 2, id, "the functions handed to the observer constructor")
+}
+
+// wrappersWaitOnlyForTheirOp (C20): a wrapper of an asynchronous gocbcore operation returns by its deadline only if
+// nothing else can hold it up: in the function that issues the operation (and what it calls inside the module, two
+// levels) every wait is either the operation record's own (its Wait / Resolve) or on a channel the wrapper made
+// itself for this call's result. A slot taken from a shared limiter, a lock or a shared queue in front of the
+// operation is waited for without any deadline — and when the wrapper is re-entered on a path of its own (the rollback
+// branch of the stream request fetches the fail-over log) the slots run out exactly when every caller needs a second one.
+func wrappersWaitOnlyForTheirOp(c *Ctx, id string) {
+	w := c.W
+	seen := map[*ssa.Function]bool{}
+	n := 0
+	for _, s := range asyncSites(w) {
+		fn := rootFn(s.Fn)
+		if seen[fn] {
+			continue
+		}
+		seen[fn] = true
+		n++
+		c.see(fn)
+		var ownChan func(ch ssa.Value, at *ssa.Function, depth int) bool
+		ownChan = func(ch ssa.Value, at *ssa.Function, depth int) bool { // made by the very function (wrapper or nested wrapper) that waits on it
+			v := resolveCell(ch)
+			if mk, ok := v.(*ssa.MakeChan); ok {
+				return rootFn(mk.Parent()) == rootFn(at)
+			}
+			// … or handed to a helper that does the waiting for it (`awaitResult(opm, op, err, resCh, errCh)`): every caller
+			// hands in a channel of its own
+			if p, ok := v.(*ssa.Parameter); ok && depth < 2 {
+				g := p.Parent()
+				sites := w.callersOf(g)
+				if len(sites) == 0 {
+					return false
+				}
+				for _, cs := range sites {
+					a := argOfParam(cs.Call.Common(), g, p)
+					if a == nil || !ownChan(a, cs.Fn, depth+1) {
+						return false
+					}
+				}
+				return true
+			}
+			return false
+		}
+		ops := w.blockingOps(fn, func(in ssa.Instruction) bool {
+			if p := in.Parent(); p != nil {
+				r := rootFn(p)
+				if r.Signature.Recv() != nil && strings.Contains(strings.ToLower(recvTypeName(r.Signature.Recv().Type())), "asyncop") {
+					return true // the operation record's own wait
+				}
+			}
+			switch x := in.(type) {
+			case *ssa.Send:
+				return ownChan(x.Chan, in.Parent(), 0)
+			case *ssa.UnOp:
+				return x.Op.String() == "<-" && ownChan(x.X, in.Parent(), 0)
+			case ssa.CallInstruction:
+				// a fan-out the wrapper joins itself (one request per node): its own WaitGroup
+				if strings.HasSuffix(calleeName(x.Common()), "WaitGroup).Wait") && len(x.Common().Args) == 1 {
+					if al := rootAlloc(x.Common().Args[0]); al != nil && rootFn(al.Parent()) == rootFn(in.Parent()) {
+						return true
+					}
+				}
+			}
+			return false
+		})
+		c.Check(len(ops) == 0, id, "wrapper-waits@"+fname(fn), fn.Pos(), "waits for its operation and its own result channel only", fname(fn)+" can also wait for "+strings.Join(ops, ", ")+" — a wait no deadline bounds, in front of or around the operation")
+	}
+	c.Floor(id, 8)
+	c.need(n >= 8, id, "wrappers of asynchronous operations")
+}
+
+// errorsAsFresh (C20/C15): a classification is of the error at hand. The target of errors.As holds what the last
+// successful call found — also one for another error, in an earlier iteration or an earlier call; so wherever the
+// module reads such a target, the read is reached only through the true result of an errors.As on that target. A
+// target hoisted out of a loop and read without consulting the result classifies a time-out as the "not found" of the
+// vBucket before it.
+func errorsAsFresh(c *Ctx, id string) {
+	w := c.W
+	n := 0
+	var bad []string
+	for _, fn := range w.ModFuncs {
+		targets := map[ssa.Value][]*ssa.Call{}
+		allInstrs(fn, func(in ssa.Instruction) {
+			call, ok := in.(*ssa.Call)
+			if !ok || calleeName(call.Common()) != "errors.As" || len(call.Common().Args) != 2 {
+				return
+			}
+			t := unwrap(call.Common().Args[1]) // MakeInterface is unwrapped: the address of the target
+			targets[t] = append(targets[t], call)
+		})
+		for t, calls := range targets {
+			n += len(calls)
+			refs := t.Referrers()
+			if refs == nil {
+				continue
+			}
+			for _, r := range *refs {
+				ld, isLd := r.(*ssa.UnOp)
+				if !isLd || ld.Op != token.MUL {
+					continue
+				}
+				ok := false
+				for _, call := range calls {
+					if guardedBy(ld.Block(), true, func(v ssa.Value) bool { return v == ssa.Value(call) }) {
+						ok = true
+					}
+				}
+				if !ok {
+					bad = append(bad, fmt.Sprintf("%s reads the errors.As target %s @%s without being under a true result of errors.As on it", fname(fn), w.Origin(t), w.pos(ld.Pos())))
+				}
+			}
+		}
+	}
+	sort.Strings(bad)
+	c.Check(len(bad) == 0, id, "errors-as-fresh", 0, fmt.Sprintf("%d errors.As calls: every read of a target is under the true result of an errors.As on it", n), strings.Join(dedupStrings(bad), "; ")+" — a stale classification (of an earlier error) decides what happens to this one")
+	c.need(n >= 1, id, "errors.As calls in the module")
+}
+
+// loggedForwarder: cl is a closure that, besides writing log lines, does exactly one thing: it calls one method of a
+// captured receiver once, unconditionally, outside any loop, with its own parameters in order — the method it forwards to.
+func (w *World) loggedForwarder(cl *ssa.Function) *ssa.Function {
+	if cl == nil || cl.Parent() == nil || len(cl.Blocks) == 0 || len(cl.AnonFuncs) != 0 {
+		return nil
+	}
+	var target *ssa.Function
+	ok := true
+	cyc := cycleBlocks(cl)
+	allInstrs(cl, func(in ssa.Instruction) {
+		switch x := in.(type) {
+		case *ssa.Store, *ssa.Send, *ssa.MapUpdate, *ssa.Go, *ssa.Defer, *ssa.Select, *ssa.Panic:
+			if st, isSt := x.(*ssa.Store); isSt && rootAlloc(st.Addr) != nil {
+				return // (a local: the variadic slice of a log call)
+			}
+			ok = false
+		case *ssa.Call:
+			cc := x.Common()
+			name := calleeName(cc)
+			if strings.Contains(name, "logger.") || strings.HasPrefix(name, "fmt.") {
+				return
+			}
+			callee := cc.StaticCallee()
+			if callee == nil || !w.inModule(callee) || callee.Signature.Recv() == nil || target != nil || len(cc.Args) != 1+len(cl.Params) || len(guardsOf(in.Block())) != 0 || cyc[in.Block()] {
+				ok = false
+				return
+			}
+			for i, p := range cl.Params {
+				if a := unwrap(cc.Args[1+i]); a != ssa.Value(p) && singleStoreOf(a) != ssa.Value(p) { // (a by-value struct parameter is read through the cell it was spilled to)
+					ok = false
+				}
+			}
+			if !strings.HasPrefix(w.Origin(cc.Args[0]), "recv") {
+				ok = false
+			}
+			target = callee
+		}
+	})
+	if !ok {
+		if os.Getenv("DV_DEBUG") != "" {
+			fmt.Fprintln(os.Stderr, "loggedForwarder rejects", fname(cl))
+		}
+		return nil
+	}
+	return target
 }
